@@ -467,6 +467,47 @@ def promotions_enabled(repo, run, rule):
         run.ok(rule, fi, '%d survivor decisions of the container merge pass allow_promotions=True' % len(seen))
 
 
+def _fresh_collection(repo, fi, node, depth=0):
+    """is the collection this expression denotes created anew each time the expression is evaluated?  True: an empty / literal
+    collection display or constructor call; False: the default of a record field or parameter (evaluated once, when the class /
+    function is created) that is a mutable collection; None: not recognised"""
+    if isinstance(node, (ast.Set, ast.List, ast.Dict, ast.SetComp, ast.ListComp, ast.DictComp)):
+        return True
+    if isinstance(node, ast.Call) and isinstance(node.func, ast.Name) and node.func.id in ('set', 'list', 'dict') and node.func.id not in fi.module.functions:
+        return True
+    if isinstance(node, ast.Name):
+        a = fi.node.args
+        pos = a.posonlyargs + a.args
+        dmap = dict(zip([x.arg for x in pos[len(pos) - len(a.defaults):]], a.defaults))
+        dmap.update({x.arg: d for x, d in zip(a.kwonlyargs, a.kw_defaults) if d is not None})
+        if node.id in dmap:
+            return False if _fresh_collection(repo, fi, dmap[node.id], depth + 1) else None      # a mutable default argument: one object for all calls
+        return None
+    if isinstance(node, ast.Attribute) and isinstance(node.value, ast.Call) and isinstance(node.value.func, ast.Name) and depth < 4:
+        cname = node.value.func.id
+        ci = repo.classes.get(cname)
+        if ci is None:
+            return None
+        fields = ci.module.namedtuple_fields(cname)
+        if not fields or node.attr not in fields:
+            return None
+        call = node.value
+        k = list(fields).index(node.attr)
+        given = call.args[k] if k < len(call.args) and not any(isinstance(a, ast.Starred) for a in call.args) else next((kw.value for kw in call.keywords if kw.arg == node.attr), None)
+        if given is not None:
+            return _fresh_collection(repo, fi, given, depth + 1)
+        d = ci.module.record_defaults(cname).get(node.attr)
+        if d is None:
+            return None
+        if isinstance(d, ast.Call) and norm(d.func) in ('field', 'dataclasses.field'):
+            fac = next((kw.value for kw in d.keywords if kw.arg == 'default_factory'), None)
+            return True if fac is not None and norm(fac) in ('set', 'list', 'dict') else None
+        if _fresh_collection(repo, fi, d, depth + 1):
+            return False        # a mutable collection as a class-level default: one object for all instances
+        return None
+    return None
+
+
 def removed_root_excepted(repo, run, rule):
     """when a deleting node replaces a whole emptied subtree, the new-path check of the replacing node excepts what was removed -
     including the root of that subtree itself (its path is added to the set before the check)"""
@@ -474,7 +515,7 @@ def removed_root_excepted(repo, run, rule):
     fi = repo.func('ComposedNode.ayns.on_merge_impl')
     pth = fi.params()[1]
     n = 0
-    bad = None
+    bad = stale = unknown = None
     for p in tr.paths_of(repo, fi, no_inline=set(mt.NI), follow_exceptions=False):
         for i, e in enumerate(p.events):
             if e.kind == 'call' and e.attr == '_require_all_new' and 'exceptions' in e.kw and e.recv is not None and e.recv.text.startswith('other'):
@@ -483,8 +524,17 @@ def removed_root_excepted(repo, run, rule):
                 adds = [x for x in p.events[:i] if x.kind == 'call' and x.attr == 'add' and x.recv is not None and x.recv.text == exc and x.args and x.args[0].text == pth]
                 if not adds:
                     bad = e
+                fresh = _fresh_collection(repo, fi, e.kw['exceptions'].ast)
+                if fresh is False:
+                    stale = e
+                elif fresh is None:
+                    unknown = e
     if n == 0:
         raise AnalysisError('ComposedNode.on_merge_impl: the new-path check of a replacing deleting node (exceptions=<removed>) was not found')
+    if stale is not None:
+        run.violation(rule, tr.where(fi, stale), norm(stale.node)[:90], 'the set of excepted (just removed) paths is %s: a default value evaluated once, shared by every merge in the process - paths removed by any earlier merge (earlier stages, earlier builds) stay excepted, so a !notnew node may create a path that does not exist in the config built so far' % stale.kw['exceptions'].text[:70])
+    elif unknown is not None:
+        raise AnalysisError('ComposedNode.on_merge_impl: origin of the exceptions set %s not recognised' % unknown.kw['exceptions'].text[:70])
     if bad is not None:
         run.violation(rule, tr.where(fi, bad), norm(bad.node)[:90], 'the path of the replaced subtree itself is not among the exceptions of the new-path check: a !notnew / deleting node that replaces an existing (emptied) container is rejected as if it created a new path')
     else:
@@ -1676,6 +1726,38 @@ def list_merge_keys_table(repo, run, rule):
         run.violation(rule, fi, 'mapping-onto-list key table', bad[0] + (' [%d rows]' % len(bad) if len(bad) > 1 else ''), witness=bad[:4])
     else:
         run.ok(rule, fi, 'mapping-onto-list keys (%d rows)' % rows, 'exactly the keys -len..len-1 are accepted')
+
+
+def first_not_missing_table(repo, run, rule):
+    """ComposedNode.ayns.get_first_not_missing_node evaluated on a small tree (the path walk is the library's own, evaluated too):
+    the answer is the deepest node that exists along the path - the node itself when the whole path exists, whatever it holds
+    (a node holding 0 or an empty container is a node), else the last existing ancestor; with intermediate=True the chain of
+    existing nodes from the root. Pruning under a deleting node compares every older node with this counterpart."""
+    from ..fde import NodeInt
+    fi = repo.func('ComposedNode.ayns.get_first_not_missing_node')
+    bad = []
+    rows = 0
+    for leaf in (NodeInt(7, 'seven'), NodeInt(0, 'zero')):
+        empty = node_obj('empty', 'ConfigDict', _children={})
+        a = node_obj('a', 'ConfigDict', _children={'keep': leaf, 'e': empty})
+        root = node_obj('root', 'ConfigDict', _children={'a': a})
+        cases = [(['a', 'keep'], [root, a, leaf]), (['a', 'zzz'], [root, a]), (['zzz'], [root]), (['zzz', 'deeper'], [root]), (['a', 'keep', 'deeper'], [root, a, leaf]), ([], [root]),
+                 (['a', 'e'], [root, a, empty]), (['a', 'e', 'x'], [root, a, empty]), (['a'], [root, a])]
+        for path, chain in cases:
+            for inter in (False, True):
+                f = FDE(repo, stubs={'get_list_path'}, stub=lambda n, recv, a_, k: ([] if not a_ or (len(a_) == 1 and a_[0] is None) else list(a_[0]) if len(a_) == 1 and isinstance(a_[0], (list, tuple)) else list(a_)))
+                r = fde_guard(lambda: f.call(fi, root, path, intermediate=inter))
+                rows += 1
+                want = chain if inter else chain[-1]
+                got = r.ret
+                same = (not r.raised) and (isinstance(got, list) and len(got) == len(want) and all(x is y for x, y in zip(got, want)) if inter else got is want)
+                if not same:
+                    bad.append('path %s in {a: {keep: %s, e: {}}}%s gives %s, expected %s' % (path, int(leaf), ' (intermediate)' if inter else '', 'an exception: ' + r.raised if r.raised else got, want))
+    run.table(rule, rows, 'paths x leaf value (7 / 0) x intermediate')
+    if bad:
+        run.violation(rule, fi, 'deepest existing node table', bad[0] + (' [%d rows]' % len(bad) if len(bad) > 1 else '') + ': an existing node that holds a false value is skipped, so pruning compares older nodes with the wrong counterpart', witness=bad[:4])
+    else:
+        run.ok(rule, fi, 'deepest existing node (%d rows)' % rows, 'existing nodes are found whatever they hold; missing components fall back to the last existing ancestor')
 
 
 def tag_spec(repo, run, rule, tags):
